@@ -258,11 +258,20 @@ def mk_defaults(kind):
                 policy.RuleDefault('p:b', 'role:db')]
 
 
+_LAST = {}      # (sandbox root, file) -> the mapping last written there (survives a deletion): what 'restore' writes back
+
+
 def apply_op(sb, op, counter):
     kind, f = op
     if kind == 'write':
         counter[0] += 1
-        sb.write(f, {'p:a': 'role:w%d' % counter[0], 'p:%s' % f[-6]: 'role:v%d' % counter[0]})
+        m = {'p:a': 'role:w%d' % counter[0], 'p:%s' % f[-6]: 'role:v%d' % counter[0]}
+        _LAST[(sb.root, f)] = m
+        sb.write(f, m)
+    elif kind == 'restore':
+        # the file comes back (or is rewritten) with exactly the bytes it had when it was last written: only times move
+        if (sb.root, f) in _LAST:
+            sb.write(f, _LAST[(sb.root, f)])
     elif kind == 'write_old':
         counter[0] += 1
         sb.write(f, {'p:old': 'role:o%d' % counter[0]})
@@ -289,12 +298,12 @@ def c10(tier='quick', seed=0):
     quiet()
     rng = random.Random(seed)
     R = Result('long-lived enforcer equals a fresh one', 'operation sequences over {write, write-old-name, empty, touch, delete, '
-               'load, enforce} x {main file, two files in d1, one in d2}: exhaustive for short sequences over the main file '
+               'restore (the bytes last written come back with a newer time), load, enforce} x {main file, two files in d1, one in d2}: exhaustive for short sequences over the main file '
                'and one directory file, over two files of one directory, and after the loss of a main file that had been loaded with a '
                'directory override; random up to 14 steps; plain and deprecated defaults; with and without a main file '
                'at the start; modification times strictly increase on files and directories')
-    ops = [(k, f) for k in ('write', 'empty', 'touch', 'delete') for f in FILES] + [('write_old', 'd1/x.yaml'), ('load', None), ('enforce', None)]
-    short_ops = [(k, f) for k in ('write', 'empty', 'delete') for f in ('policy.yaml', 'd1/x.yaml')] + [('load', None)]
+    ops = [(k, f) for k in ('write', 'empty', 'touch', 'delete', 'restore') for f in FILES] + [('write_old', 'd1/x.yaml'), ('load', None), ('enforce', None)]
+    short_ops = [(k, f) for k in ('write', 'empty', 'delete', 'restore') for f in ('policy.yaml', 'd1/x.yaml')] + [('load', None)]
     seqs = []
     L = 3 if tier == 'quick' else 4
     for n in range(1, L + 1):
@@ -333,7 +342,8 @@ def c10(tier='quick', seed=0):
                     sb.mkdir('d1')
                     sb.mkdir('d2')
                     if start_main:
-                        sb.write('policy.yaml', {'p:a': 'role:main0'})
+                        sb.write('policy.yaml', {'p:a': 'role:main0', 'p:m': 'role:mainonly'})
+                        _LAST[(sb.root, 'policy.yaml')] = {'p:a': 'role:main0', 'p:m': 'role:mainonly'}
                     defaults = mk_defaults(dk)
                     dirs = ['d1', 'd2']
                     conf = sb.conf(policy_file='policy.yaml', policy_dirs=dirs, enforce_new_defaults=False)
@@ -358,6 +368,8 @@ def c10(tier='quick', seed=0):
                             apply_op(sb, op, counter)
                     R.case((si, dk, start_main), bad, sample={'history': [str(o) for o in seq], 'defaults': dk})
                 finally:
+                    for k_ in [k_ for k_ in _LAST if k_[0] == sb.root]:
+                        del _LAST[k_]
                     sb.close()
                 if R.full:
                     return R.d
@@ -532,10 +544,12 @@ def c11(tier='quick', seed=0):
     R.d['exhaustive'] = True
     roles_all = ['new', 'old', 'ovr', 'ovn', 'new2']
     subsets = [list(c) for k in range(len(roles_all) + 1) for c in itertools.combinations(roles_all, k)]
-    for renamed, same_str, flag, new_ovr, old_ovr, where, shared, hist in itertools.product(
+    ci11 = 0
+    for renamed, same_str, flag, new_ovr, old_ovr, where, shared, hist, quiet_warn in itertools.product(
             [True, False], [True, False], [True, False], [False, True], ['absent', 'arbitrary', 'alias'],
             ['main', 'dir', 'dironly'], [False, True], ['fresh', 'overrides-removed', 'old-name-still-registered', 'flag-flipped',
-                                                        'overrides-added']):
+                                                        'overrides-added'], [False, True]):
+        ci11 += 1
         if not renamed and old_ovr != 'absent':
             continue        # same name: an old-name override is the new-name override
         if shared and not renamed:
@@ -573,6 +587,12 @@ def c11(tier='quick', seed=0):
             conf = sb.conf(policy_file='policy.yaml', policy_dirs=['d1'],
                            enforce_new_defaults=(not flag) if hist == 'flag-flipped' else flag)
             e = policy.Enforcer(conf)
+            if quiet_warn:
+                # the switches that silence the deprecation warnings silence warnings and nothing else
+                if ci11 % 4 < 2:
+                    e.suppress_default_change_warnings = True
+                if ci11 % 4 > 0:
+                    e.suppress_deprecation_warnings = True
             for d in defaults:
                 e.register_default(d)
 
@@ -631,7 +651,7 @@ def c11(tier='quick', seed=0):
                         bad = ('renamed=%s same_check_str=%s enforce_new_defaults=%s new_override=%s old_override=%s in %s shared=%s '
                                'history=%s: %s with roles %r gave %r, table says %r' % (
                                    renamed, same_str, flag, new_ovr, old_ovr, where, shared, hist, name, roles, got[1:], w))
-                    R.case((renamed, same_str, flag, new_ovr, old_ovr, where, shared, hist, name, tuple(roles)), bad)
+                    R.case((renamed, same_str, flag, new_ovr, old_ovr, where, shared, hist, quiet_warn, name, tuple(roles)), bad)
                     if R.full:
                         return R.d
         finally:
